@@ -41,14 +41,14 @@ theorem uncompress_of_compress {u : Unprot} {o : Bytes} (hu : u.sendable) (h : c
   obtain ⟨o', h1, h2⟩ := uncompress_compress u hu
   rw [h] at h1; cases h1; exact h2
 
-theorem idsAcceptable_req {A B : Ctx} (hAB : Sends A B) (seq : Nat) :
-    idsAcceptable B (reqUnprot A seq) = true := by
+theorem idsAcceptable_req {A B : Ctx} (hAB : Sends A B) (seq : Nat) (isResp : Bool) :
+    idsAcceptable B isResp (reqUnprot A seq) = true := by
   simp only [idsAcceptable, hAB.id, beq_self_eq_true, Bool.and_true]
   rw [hAB.idctx]
   cases B.idContext <;> simp
 
 theorem idsAcceptable_resp {A B : Ctx} (hAB : Sends A B) (piv : Option Bytes) :
-    idsAcceptable B (respUnprot A piv) = true := by
+    idsAcceptable B true (respUnprot A piv) = true := by
   simp only [idsAcceptable, respKid, Bool.true_and]
   split
   · rename_i k hk
@@ -91,7 +91,7 @@ theorem recv_request {E : AEAD} {A B : Ctx} {seq : Nat} {m : Msg} {P : Protected
     (o := { code := outerCode m none, opts := outerOpts m o,
             payload := E.enc A.senderKey nonce (aad A.algValue A.senderId (shortPiv seq)) pt })
     (by simp [isResponse_of_post_fetch hcode]) (findOpt_outerOpts_9 m o) hu
-    (idsAcceptable_req hAB seq) hsel rfl hlen hn'
+    (idsAcceptable_req hAB seq _) hsel rfl hlen hn'
   rw [this]
   simp [hAB.alg, hAB.id, beToNat_shortPiv]
 
@@ -138,7 +138,7 @@ theorem recv_response {E : AEAD} {A B : Ctx} {seq : Nat} {m : Msg} {r rc : ReqId
       (o := { code := responseCode r.style, opts := [(9, o)],
               payload := E.enc A.senderKey nonce (aad A.algValue r.kid r.piv) pt })
       (by simp [responseCode_isResponse]) (by simp [findOpt]) hu
-      (idsAcceptable_resp hAB none) hsel rfl hlen hn'
+      (by simp only [responseCode_isResponse]; exact idsAcceptable_resp hAB none) hsel rfl hlen hn'
     rw [this]
     simp [hAB.alg, hk, hp, hcr]
   · have hu := uncompress_of_compress (respUnprot_sendable A (piv := some (shortPiv seq))
@@ -154,7 +154,7 @@ theorem recv_response {E : AEAD} {A B : Ctx} {seq : Nat} {m : Msg} {r rc : ReqId
       (o := { code := responseCode r.style, opts := [(9, o)],
               payload := E.enc A.senderKey nonce (aad A.algValue r.kid r.piv) pt })
       (by simp [responseCode_isResponse]) (by simp [findOpt]) hu
-      (idsAcceptable_resp hAB _) hsel rfl hlen hn'
+      (by simp only [responseCode_isResponse]; exact idsAcceptable_resp hAB _) hsel rfl hlen hn'
     rw [this]
     simp [hAB.alg, hk, hp, hcr, beToNat_shortPiv]
 
